@@ -274,6 +274,84 @@ Proof.
     + intros n' Hn'. apply Hdl. right. exact Hn'.
 Qed.
 
+(* ---------- second invariant: the map is a consistent fixpoint ---------- *)
+Record Inv2 (done : list net) (tm : list (wid * Z)) : Prop := {
+  inv_in : forall w t, In (w, t) tm -> assoc tm w = Some t;
+  inv_fix : forall n, In n done -> 0 <= dl n ->
+              assoc tm (ndest n) = Some (maxl (map (tval tm) (nargs n)) + dl n);
+  inv_base : forall w, is_base nl w = true -> assoc tm w = Some 0
+}.
+
+Lemma inv2_init : Inv2 [] (tm0 nl).
+Proof.
+  unfold tm0. constructor.
+  - intros w t H. apply in_map_iff in H. destruct H as [x [E Hx]]. injection E as <- <-.
+    rewrite assoc_tm0. apply mem_in_iff in Hx. rewrite Hx. reflexivity.
+  - intros n [].
+  - intros w Hb. rewrite assoc_tm0. apply rdy0_iff in Hb. apply mem_in_iff in Hb. rewrite Hb. reflexivity.
+Qed.
+
+Lemma tval_dset_other tm d v a : d <> a -> tval (dset tm d v) a = tval tm a.
+Proof. intro H. unfold tval, assoc_d. rewrite assoc_dset_other by exact H. reflexivity. Qed.
+
+Lemma inv2_step done rdy tm n :
+  Inv done rdy tm -> Inv2 done tm ->
+  net_ok nl rdy n = true ->
+  (dl n <? 0) = negb (is_comb (nop n)) ->
+  Inv2 (done ++ [n]) (tm_step dl tm n).
+Proof.
+  intros [Idom Iopt Irdy Iargs] [Iin Ifix Ibase] Hok Hdl.
+  unfold net_ok, tm_step in *.
+  destruct (is_comb (nop n)) eqn:Hc; cbn [negb] in Hdl.
+  2:{ rewrite Hdl. assert (Hlt : dl n < 0) by lia. constructor; auto.
+      intros n' Hn' Hd. apply in_app_or in Hn'. destruct Hn' as [Hn'|[<-|[]]]; [auto|lia]. }
+  rewrite Hdl. assert (Hge : 0 <= dl n) by lia.
+  apply andb_prop in Hok. destruct Hok as [Hok _].
+  apply andb_prop in Hok. destruct Hok as [Hok _].
+  apply andb_prop in Hok. destruct Hok as [Hargs Hfresh].
+  rewrite forallb_forall in Hargs.
+  assert (Hargs' : forall a, In a (nargs n) -> In a rdy).
+  { intros a Ha. apply mem_in_iff. apply Hargs. exact Ha. }
+  assert (Hd : ~ In (ndest n) rdy).
+  { intro H. apply mem_in_iff in H. rewrite H in Hfresh. discriminate. }
+  assert (Hnone : assoc tm (ndest n) = None).
+  { destruct (assoc tm (ndest n)) eqn:E; [|reflexivity]. exfalso. apply Hd. apply Idom. eauto. }
+  set (v := maxl (map (tval tm) (nargs n)) + dl n).
+  assert (Hmap : forall n', (forall a, In a (nargs n') -> In a rdy) ->
+            map (tval (dset tm (ndest n) v)) (nargs n') = map (tval tm) (nargs n')).
+  { intros n' H. apply map_ext_in. intros a Ha. apply tval_dset_other.
+    intro E. apply Hd. rewrite E. apply H. exact Ha. }
+  constructor.
+  - intros w t H. rewrite dset_fresh in H by exact Hnone. apply in_app_or in H.
+    destruct H as [H|[E|[]]].
+    + pose proof (Iin w t H) as Hw. rewrite assoc_dset_other; [exact Hw|].
+      intro E. apply Hd. rewrite E. apply Idom. eauto.
+    + injection E as <- <-. apply assoc_dset_same.
+  - intros n' Hn' Hd'. apply in_app_or in Hn'. destruct Hn' as [Hn'|[<-|[]]].
+    + rewrite Hmap by (intros a Ha; eapply Iargs; eauto).
+      pose proof (Ifix n' Hn' Hd') as H. rewrite assoc_dset_other; [exact H|].
+      intro E. apply Hd. rewrite E. apply Idom. eauto.
+    + rewrite Hmap by exact Hargs'. apply assoc_dset_same.
+  - intros w Hb. rewrite assoc_dset_other; [apply Ibase; exact Hb|].
+    intro E. apply Hd. rewrite E. apply Idom. exists 0. apply Ibase. exact Hb.
+Qed.
+
+Lemma inv2_run rest : forall done rdy tm,
+  Inv done rdy tm -> Inv2 done tm -> nets_ok nl rdy rest = true -> delays_ok rest ->
+  Inv2 (done ++ rest) (timing_from dl tm rest).
+Proof.
+  induction rest as [|n r IH]; intros done rdy tm HI HI2 Hok Hdl; cbn [timing_from fold_left nets_ok] in *.
+  - rewrite app_nil_r. exact HI2.
+  - apply andb_prop in Hok. destruct Hok as [Hn Hr].
+    destruct (Hdl n (or_introl eq_refl)) as [H1 H2].
+    replace (done ++ n :: r) with ((done ++ [n]) ++ r) by (rewrite <- app_assoc; reflexivity).
+    apply IH with (rdy := rdy_next rdy n).
+    + apply inv_step; auto.
+    + eapply inv2_step; eauto.
+    + exact Hr.
+    + intros n' Hn'. apply Hdl. right. exact Hn'.
+Qed.
+
 Theorem inv_final :
   wfb nl = true -> delays_ok (nets nl) ->
   Inv (nets nl) (rdy_final nl) (timing_map nl dl).
@@ -282,6 +360,17 @@ Proof.
   repeat (apply andb_prop in Hwf; destruct Hwf as [Hwf ?]).
   unfold rdy_final, timing_map.
   change (nets nl) with ([] ++ nets nl) at 1. apply inv_run; auto. apply inv_init.
+Qed.
+
+Theorem inv2_final :
+  wfb nl = true -> delays_ok (nets nl) -> Inv2 (nets nl) (timing_map nl dl).
+Proof.
+  intros Hwf Hdl. unfold wfb in Hwf.
+  repeat (apply andb_prop in Hwf; destruct Hwf as [Hwf ?]).
+  unfold timing_map.
+  change (nets nl) with ([] ++ nets nl) at 1. eapply inv2_run; eauto.
+  - apply inv_init.
+  - apply inv2_init.
 Qed.
 
 Lemma wfb_all_ready : wfb nl = true ->
@@ -354,3 +443,152 @@ Proof.
     - eapply cpath_ext; [|exact P2]. intros n Hx. apply Hn. exact Hx. }
   lia.
 Qed.
+
+(* ---------- max_length and critical_path ---------- *)
+Section CPP.
+Variable nl : netlist.
+Variable dl : net -> Z.
+
+Lemma is_longest_unique w t1 t2 :
+  is_longest nl dl w t1 -> is_longest nl dl w t2 -> t1 = t2.
+Proof.
+  intros [[a1 [p1 [B1 [P1 S1]]]] U1] [[a2 [p2 [B2 [P2 S2]]]] U2].
+  pose proof (U2 a1 p1 B1 P1). pose proof (U1 a2 p2 B2 P2). lia.
+Qed.
+
+Lemma assoc_in (l : list (wid * Z)) w t : assoc l w = Some t -> In (w, t) l.
+Proof.
+  induction l as [|[k v] r IH]; cbn [assoc]; [discriminate|].
+  destruct (k =? w) eqn:E.
+  - intro H. injection H as ->. left. f_equal. lia.
+  - intro H. right. apply IH. exact H.
+Qed.
+
+(* max_length is attained by some wire and bounds every wire *)
+Theorem max_length_is_max :
+  wfb nl = true -> delays_ok dl (nets nl) -> wires nl <> [] ->
+  (exists w, is_longest nl dl w (max_length nl dl))
+  /\ (forall w t, In w (map wname (wires nl)) -> is_longest nl dl w t -> t <= max_length nl dl).
+Proof.
+  intros Hwf Hdl Hne. pose proof (inv2_final nl dl Hwf Hdl) as [Iin _ _].
+  unfold max_length. split.
+  - assert (Hnn : map snd (timing_map nl dl) <> []).
+    { destruct (wires nl) as [|x r] eqn:Ew; [congruence|].
+      destruct (timing_is_longest_path nl dl Hwf Hdl (wname x)) as [t [Ht _]].
+      { rewrite Ew. left. reflexivity. }
+      intro E. destruct (timing_map nl dl); [cbn in Ht; discriminate Ht | cbn in E; discriminate E]. }
+    pose proof (maxl_in _ Hnn) as Hin. apply in_map_iff in Hin. destruct Hin as [[w t] [E Hwt]].
+    cbn [snd] in E. subst t. exists w. apply (timing_map_domain nl dl Hwf Hdl). apply Iin. exact Hwt.
+  - intros w t Hw Hl. destruct (timing_is_longest_path nl dl Hwf Hdl w Hw) as [t0 [Ht0 Hl0]].
+    rewrite (is_longest_unique _ _ _ Hl Hl0). apply maxl_ge.
+    apply assoc_in in Ht0. apply (in_map snd) in Ht0. exact Ht0.
+Qed.
+
+Lemma find_src_some ns w s :
+  find_src ns w = Some s -> In s ns /\ has_dest s = true /\ ndest s = w.
+Proof.
+  induction ns as [|n r IH]; cbn [find_src]; [discriminate|].
+  destruct (has_dest n && (ndest n =? w)) eqn:E.
+  - intro H. injection H as <-. apply andb_prop in E. destruct E as [E1 E2].
+    split; [left; reflexivity|]. split; [exact E1 | lia].
+  - intro H. destruct (IH H) as [H1 H2]. split; [right; exact H1 | exact H2].
+Qed.
+
+Lemma fold_pres {A S} (P : S -> Prop) (g : S -> A -> S) l :
+  (forall st a, In a l -> P st -> P (g st a)) -> forall st, P st -> P (fold_left g l st).
+Proof.
+  induction l as [|x r IH]; intros Hg st Hst; cbn [fold_left]; [exact Hst|].
+  apply IH; [intros; apply Hg; [right|]; assumption|]. apply Hg; [left; reflexivity | exact Hst].
+Qed.
+
+(* register nets drive Register wires (part of Block.sanity_check, not of wfb) *)
+Definition reg_dests_ok : Prop :=
+  forall n, In n (nets nl) -> is_comb (nop n) = false -> has_dest n = true ->
+            is_base nl (ndest n) = true.
+
+Section CPInv.
+Variable limit : Z.
+Hypothesis Hwf : wfb nl = true.
+Hypothesis Hdl : delays_ok dl (nets nl).
+Hypothesis Hreg : reg_dests_ok.
+
+Let tm := timing_map nl dl.
+Let mx := max_length nl dl.
+
+Definition good_path (wp : wid * list net) : Prop :=
+  is_base nl (fst wp) = true /\
+  exists wend, cpath nl dl (fst wp) (snd wp) wend /\ wsum dl (snd wp) = mx
+               /\ assoc tm wend = Some mx.
+
+Definition Good (st : cp_state) : Prop := forall wp, In wp (fst st) -> good_path wp.
+
+Definition Call (path : list net) (w : wid) : Prop :=
+  exists wend tw, cpath nl dl w path wend /\ assoc tm wend = Some mx
+                  /\ assoc tm w = Some tw /\ tw + wsum dl path = mx.
+
+Lemma cp_pass_good fuel : forall st path w,
+  Good st -> Call path w -> Good (cp_pass nl tm limit fuel st path w).
+Proof.
+  pose proof (inv_final nl dl Hwf Hdl) as [Idom Iopt Irdy Iargs].
+  pose proof (inv2_final nl dl Hwf Hdl) as [Iin Ifix Ibase].
+  induction fuel as [|f IH]; intros st path w Hg Hc; cbn [cp_pass]; [exact Hg|].
+  destruct (snd st); [exact Hg|].
+  destruct Hc as [wend [tw [Hp [Hend [Hw Hsum]]]]].
+  destruct (is_base nl w) eqn:Hb.
+  { intros wp Hin. cbn [fst] in Hin. apply in_app_or in Hin. destruct Hin as [Hin|[<-|[]]].
+    - apply Hg. exact Hin.
+    - split; [exact Hb|]. exists wend. cbn [fst snd]. split; [exact Hp|]. split; [|exact Hend].
+      fold tm in Ibase. rewrite (Ibase w Hb) in Hw. injection Hw as <-. lia. }
+  destruct (limit <=? Z.of_nat (length (fst st))); [exact Hg|].
+  destruct (find_src (nets nl) w) as [s|] eqn:Hs; [|exact Hg].
+  apply find_src_some in Hs. destruct Hs as [Hsn [Hsd Hsw]].
+  assert (Hcomb : is_comb (nop s) = true).
+  { destruct (is_comb (nop s)) eqn:E; [reflexivity|].
+    rewrite <- Hsw, (Hreg s Hsn E Hsd) in Hb. discriminate. }
+  destruct (Hdl s Hsn) as [Hneg _]. rewrite Hcomb in Hneg. cbn [negb] in Hneg.
+  assert (Hge : 0 <= dl s) by lia.
+  pose proof (Ifix s Hsn Hge) as Hfix. fold tm in Hfix. rewrite Hsw, Hw in Hfix.
+  injection Hfix as Htw.
+  apply fold_pres; [|exact Hg].
+  intros st' a Ha Hg'. destruct (tval tm a =? maxl (map (tval tm) (nargs s))) eqn:E; [|exact Hg'].
+  apply IH; [exact Hg'|].
+  destruct (proj1 (Idom a) (Iargs s Hsn Hge a Ha)) as [ta Hta]. fold tm in Hta.
+  exists wend, ta. split.
+  - apply cp_cons; auto. rewrite Hsw. exact Hp.
+  - split; [exact Hend|]. split; [exact Hta|].
+    rewrite (tval_some _ _ _ Hta) in E. unfold wsum in *. cbn [map fold_right]. lia.
+Qed.
+
+Theorem critical_paths_good :
+  forall wp, In wp (critical_path nl dl limit) -> good_path wp.
+Proof.
+  pose proof (inv2_final nl dl Hwf Hdl) as [Iin _ _].
+  unfold critical_path, cp_top. fold tm. fold mx.
+  assert (H : Good (fold_left
+     (fun st (wt : wid * Z) => if snd wt =? mx then cp_pass nl tm limit (cp_fuel nl) st [] (fst wt) else st)
+     tm ([], false))).
+  { apply fold_pres; [|intros wp []].
+    intros st [w t] Hin Hg. cbn [fst snd]. destruct (t =? mx) eqn:E; [|exact Hg].
+    apply cp_pass_good; [exact Hg|]. exists w, t.
+    assert (t = mx) by lia. subst t. fold tm in Iin.
+    split; [apply cp_nil|]. split; [apply Iin; exact Hin|]. split; [apply Iin; exact Hin|].
+    unfold wsum. cbn [map fold_right]. lia. }
+  exact H.
+Qed.
+End CPInv.
+
+(* every critical path returned (whether or not cp_limit was reached) starts at
+   a source, is a register-free path, ends at a wire whose time is max_length,
+   and its delays sum to exactly max_length *)
+Theorem critical_paths_sum limit :
+  wfb nl = true -> delays_ok dl (nets nl) -> reg_dests_ok ->
+  forall w0 p, In (w0, p) (critical_path nl dl limit) ->
+  is_base nl w0 = true /\
+  exists wend, cpath nl dl w0 p wend /\ wsum dl p = max_length nl dl
+               /\ assoc (timing_map nl dl) wend = Some (max_length nl dl).
+Proof.
+  intros Hwf Hdl Hreg w0 p Hin.
+  exact (critical_paths_good limit Hwf Hdl Hreg (w0, p) Hin).
+Qed.
+
+End CPP.
